@@ -521,7 +521,7 @@ def classify_apply_failure(c_gates, rules, real_descs, exp_descs):
             return "readout:multi-rule" if nread >= 2 and all(r["kind"] == KIND["readout"] or r["key"] != "M" for r in rules) else "apply:M-duplicated"
         if len(rg) < len(eg):
             return "readout:gate-dropped"
-        if rg == eg:
+        if rg == eg and sorted(map(repr, map(canon, real_descs))) == sorted(map(repr, map(canon, exp_descs))):
             return "readout:order"
     if nm_real > nm_exp:
         return "apply:M-duplicated"
@@ -1169,7 +1169,7 @@ def exec_suite(ctx):
                 break
         for key, what, exp, obs in msgs:
             bad += 1
-            ctx.fail(key, what + f" for queue {descr}, psi={psi.tolist()}", "# queue: " + repr(descr) + "\nraise SystemExit(1)\n", expected=str(np.asarray(exp).tolist()), observed=str(np.asarray(obs).tolist()),
+            ctx.fail(key, what + f" for queue {descr}, psi={psi.tolist()}", "# queue: " + repr(descr) + "\nraise SystemExit(1)\n", expected=str(exp), observed=str(obs),
                      broken=["C19_corr_exec"])
     ctx.ob("C19_corr_exec", bad == 0, "correspondence", f"{bad} disagreements" if bad else "")
 
@@ -1275,12 +1275,17 @@ def repeated_suite(ctx):
         b = NumpyBackend()
         b.set_seed(1000 * ctx.seed + k)
         np.random.seed(1000 * ctx.seed + k)
-        freq = dict(b.execute_circuit(noisy, nshots=nshots).frequencies(binary=True))
-        cdm = Circuit(n, density_matrix=True)
-        for g in noisy.queue:
-            if not isinstance(g, gates.M):
-                cdm.add(g)
-        rho = np.asarray(b.execute_circuit(cdm).state())
+        try:
+            freq = dict(b.execute_circuit(noisy, nshots=nshots).frequencies(binary=True))
+            cdm = Circuit(n, density_matrix=True)
+            for g in noisy.queue:
+                if not isinstance(g, gates.M):
+                    cdm.add(g)
+            rho = np.asarray(b.execute_circuit(cdm).state())
+        except Exception as e:  # noqa: BLE001
+            bad += 1
+            ctx.fail("repeated:raises", f"noisy execution raises {type(e).__name__}: {e}", PRELUDE + src + "noisy(nshots=10)\n", broken=["C19_repeated"])
+            continue
         probs = np.real(np.diag(rho)).reshape((2,) * n)
         other = tuple(q for q in range(n) if q not in mq)
         marg = probs.sum(axis=other) if other else probs
@@ -1305,13 +1310,18 @@ def run(ctx):
     ctx.theorems = THEOREMS
     build_and_audit(ctx, PROP, MODULES, THEOREMS)
     nb = qgates.np_backend()
-    apply_suite(ctx, nb)
-    ibmq_suite(ctx, nb)
-    pauli_suite(ctx, nb)
-    zero_suite(ctx, nb)
-    exec_suite(ctx)
-    trajectory_suite(ctx)
-    repeated_suite(ctx)
+    suites = [("apply", lambda: apply_suite(ctx, nb)), ("ibmq", lambda: ibmq_suite(ctx, nb)), ("pauli_map", lambda: pauli_suite(ctx, nb)),
+              ("zero_strength", lambda: zero_suite(ctx, nb)), ("exec", lambda: exec_suite(ctx)), ("trajectory", lambda: trajectory_suite(ctx)),
+              ("repeated", lambda: repeated_suite(ctx))]
+    for name, suite in suites:
+        try:
+            suite()
+        except Exception as e:  # noqa: BLE001 - the real code raised where the suite does not expect it
+            import traceback
+
+            tb = traceback.format_exc()
+            ctx.log(f"suite {name} aborted:\n{tb[-1500:]}")
+            ctx.ob(f"C19_suite_{name}_completed", False, "search", f"{type(e).__name__}: {e}")
     ctx.notes.append(
         "queue correspondence: random circuits (1-5 qubits, <=7 gates incl. controlled_by, multi-register / collapsing / basis "
         "measurements, channels already in the circuit) x random rule lists (all 10 error classes, class keys and None, int/tuple "
